@@ -251,6 +251,8 @@ package route
 //@   ensures[C02] result ==> params[l.bind] == segment + "/" + path[next:]
 //@   ensures[C02] forall k string :: !(result && k == l.bind) ==> params[k] == old(params[k])
 //@   requires 1 <= next && next <= len(path) && params != nil
+// the cursor stands right behind a slash (so that "segment + path[next-1:]" is the same text as "segment + "/" + path[next:]")
+//@   requires path[next - 1] == '/'
 //@   modifies params[*], Segment.str, Segment.strOnce.fired
 //@   ensures treeWF()
 
